@@ -212,6 +212,16 @@ func pMul(a, b *Poly) *Poly {
 			atoms = append(atoms, x.atoms...)
 			atoms = append(atoms, y.atoms...)
 			sort.Slice(atoms, func(i, j int) bool { return atoms[i].id < atoms[j].id })
+			// indicator atoms (ite c 1 0) are idempotent
+			w := 0
+			for i, a := range atoms {
+				if i > 0 && a == atoms[w-1] && isIndicator(a) {
+					continue
+				}
+				atoms[w] = a
+				w++
+			}
+			atoms = atoms[:w]
 			key := monoKey(atoms)
 			c := new(big.Int).Mul(x.coef, y.coef)
 			if old, ok := r.ms[key]; ok {
@@ -226,6 +236,11 @@ func pMul(a, b *Poly) *Poly {
 	}
 	r.iv = ivMul(a.iv, b.iv)
 	return r.fixConst()
+}
+
+func isIndicator(a *Term) bool {
+	return a.op == OIte && a.sort.K == KInt && a.args[1].IsConst() && a.args[2].IsConst() &&
+		a.args[1].val.Cmp(big1) == 0 && a.args[2].val.Sign() == 0
 }
 
 func (p *Poly) sortedKeys() []string {
@@ -293,6 +308,7 @@ type intTr struct {
 	facts     map[*Term][]*remFact
 	hypPolys  []hypPoly // assumed  p ≡ 0 (mod m)  or, with m == nil,  p = 0 ; in hypothesis order
 	noElim    bool
+	inGoal    bool
 }
 
 var statModsDropped, statModsKept int64
@@ -976,7 +992,7 @@ func (tr *intTr) cmp0(p *Poly, op Op) *Term {
 
 // congruent0 builds  p ≡ 0 (mod m)  after reducing coefficients modulo m.
 func (tr *intTr) congruent0(p *Poly, m *big.Int) *Term {
-	if !tr.noElim {
+	if !tr.noElim && tr.inGoal {
 		p = tr.eliminate(p, m)
 	}
 	r := &Poly{ms: map[string]*pmono{}}
@@ -1089,6 +1105,18 @@ func (tr *intTr) eliminate(g *Poly, m *big.Int) *Poly {
 	g = reduceCoefs(g, m)
 	for i := len(hs) - 1; i >= 0 && len(g.ms) > 0; i-- {
 		h := reduceCoefs(hs[i], m)
+		// g is a scalar multiple of an assumed congruence?
+		if len(h.ms) > 0 && len(h.ms) == len(g.ms) {
+			k0 := h.sortedKeys()[0]
+			if gm, ok := g.ms[k0]; ok {
+				if inv := new(big.Int).ModInverse(new(big.Int).Mod(h.ms[k0].coef, m), m); inv != nil {
+					k := new(big.Int).Mul(gm.coef, inv)
+					if d := reduceCoefs(pSub(g, pScale(h, k)), m); len(d.ms) == 0 {
+						return d
+					}
+				}
+			}
+		}
 		// choose the lone unit-coefficient atom of h with the largest id that occurs in g
 		var atom *Term
 		var coef *big.Int
@@ -1141,7 +1169,11 @@ func (tr *intTr) eliminate(g *Poly, m *big.Int) *Poly {
 		rest := pSub(h, pScale(pAtom(atom, unk()), big.NewInt(int64(sign))))
 		repl := reduceCoefs(pScale(rest, big.NewInt(int64(-sign))), m)
 		ng := &Poly{ms: map[string]*pmono{}}
+		tooBig := false
 		for _, gm := range g.ms {
+			if tooBig {
+				break
+			}
 			e := 0
 			var others []*Term
 			for _, x := range gm.atoms {
@@ -1153,9 +1185,19 @@ func (tr *intTr) eliminate(g *Poly, m *big.Int) *Poly {
 			}
 			term := &Poly{ms: map[string]*pmono{monoKey(others): {coef: gm.coef, atoms: others}}}
 			for ; e > 0; e-- {
+				if len(term.ms)*len(repl.ms) > 3000 {
+					tooBig = true
+					break
+				}
 				term = reduceCoefs(pMul(term, repl), m)
 			}
 			ng = pAddScaled(ng, term, big1)
+			if len(ng.ms) > 6000 {
+				tooBig = true
+			}
+		}
+		if tooBig {
+			continue // this substitution would explode: leave the goal as it is for the solver
 		}
 		g = reduceCoefs(ng, m)
 	}
